@@ -327,7 +327,60 @@ pub fn judge(c: &SessionCase) -> Report {
     rep
 }
 
+/// one-line forms with unusual token spellings: whenever the interpreter itself accepts the text as one complete form
+/// with a value (evaluated in-process), the REPL must evaluate it when the line is entered and go on with the next line
+const EXOTIC: &[&str] = &[
+    "(quote |a\\|b|)",
+    "(list (quote |x\\|y|) 1)",
+    "(quote |a\\x41;b|)",
+    "(list \"a\\\"b\" 1)",
+    "(list \"a\\\\\" 2)",
+    "(list #\\\" 3)",
+    "(list #\\| 4)",
+    "(list #\\( 5)",
+    "(quote (|a b| . |c;d|))",
+    "(list \"x\\x41;y\" 6)",
+    "(vector #\\; 7)",
+    "(list 'a'b '(c)'d)",
+    "(list \"a\"\"b\")",
+    "(quote #(1 #(2) \"#(\"))",
+    "(list #t#f)",
+    "(list 1.5e2 -.5 +.5 1/2)",
+];
+
+fn exotic_case(text: &str) -> Report {
+    let mut rep = Report::new(text.to_string());
+    let t = text.to_string();
+    let reference = sut::in_thread(move || {
+        let mut s = Session::stdlib().unwrap();
+        s.eval_display(&t)
+    });
+    let value = match reference {
+        Ok(Some(v)) if !v.contains('\n') => v,
+        other => {
+            rep.skipped = Some("not-a-complete-form-with-a-value-for-this-interpreter".into());
+            rep.note = format!("{:?}", other);
+            return rep;
+        }
+    };
+    rep.nontrivial = true;
+    let dir = scratch("c18x");
+    let input = format!("{}\n(quote done)\n", text);
+    let r = run_binary(&[], &dir, Some(&input));
+    let _ = std::fs::remove_dir_all(&dir);
+    let expected = format!("{}\n{}\ndone\nexited. have a nice day.\n", banner(), value);
+    rep.note = format!("stdout {:?}", r.stdout);
+    if r.stdout != expected {
+        rep.fail("complete-form-not-evaluated-when-entered", format!("in-process the text evaluates to {}; the REPL wrote {:?} (stderr {:?})", value, r.stdout, strip_ansi(&r.stderr)));
+    }
+    rep
+}
+
 pub fn run(ctx: &Ctx) {
+    if !ctx.skip_sub("exotic-forms") {
+        let texts: Vec<String> = EXOTIC.iter().map(|s| s.to_string()).collect();
+        ctx.texts("exotic-forms", &texts, |t| exotic_case(t));
+    }
     if ctx.skip_sub("sessions") {
         return;
     }
